@@ -13,7 +13,7 @@ MAXV = 3653 * 86400
 UTC_MAX = 2524607999
 
 EXT_KINDS_PLAIN = ["aki", "cp", "pm", "san", "ian", "sda", "nc", "pc", "crldp", "iap", "fcrl",
-                   "ns", "aia", "nscom", "sct", "unk", "crlreason", "invdate", "certissuer", "bad"]
+                   "ns", "aia", "nscom", "sct", "unk", "crlreason", "invdate", "certissuer", "bad", "bcx", "kux", "cepre"]
 
 
 # ------------------------------------------------------------------ vectors
@@ -84,6 +84,9 @@ def deviations(idx, nissuers_below):
     add("issuer-empty", lambda c: c.update(i=0))
     add("issuer-mismatch", lambda c: c.update(i=9))
     add("subject-mismatch", lambda c: c.update(s=9))
+    # names whose encoding extends / is a prefix of the expected one (id + 100 = same RDNs plus one more)
+    add("issuer-name-extended", lambda c: c.update(i=c["i"] + 100))
+    add("subject-name-extended", lambda c: c.update(s=c["s"] + 100))
     add("sig-bad", lambda c: c.update(g=0))
     add("sig-wrong-key", lambda c: c.update(g=6))
     add("key-other", lambda c: c.update(k=6))
@@ -208,7 +211,8 @@ def gen(ctx):
             other = cert(5, 5, 5, 5, ["ku:1:96", "bc:1:1:6"])
             samesubj_otherkey = cert(1, 1, 6, 6, ["ku:1:96", "bc:1:1:6"])
             samesubj_nobc = cert(1, 1, 1, 1, ["ku:1:96"])
-            for nm, store in (("junk-before", [junk, root]), ("junk-after", [root, junk]), ("other-before", [other, root]),
+            longer = cert(101, 101, 5, 5, ["ku:1:96", "bc:1:1:6"])
+            for nm, store in (("longer-name-first", [longer, root]), ("longer-name-only", [longer]), ("junk-before", [junk, root]), ("junk-after", [root, junk]), ("other-before", [other, root]),
                               ("other-only", [other]), ("same-subject-other-key-first", [samesubj_otherkey, root]),
                               ("same-subject-other-key-second", [root, samesubj_otherkey]), ("root-twice", [root, root]),
                               ("same-subject-no-bc-first", [samesubj_nobc, root]), ("same-subject-no-bc-second", [root, samesubj_nobc]),
@@ -273,6 +277,10 @@ def gen(ctx):
         add("bysubj %d %s" % (sid, lst(store)), "bysubj:plain")
         add("bysubj %d %s" % (sid, lst(store[:2] + [{"p": 0}] + store[2:])), "bysubj:junk-in-middle")
         add("bysubj %d ." % sid, "bysubj:empty-store")
+    for order in ((101, 1), (1, 101), (101,), (1,)):
+        st2 = [cert(s_, 1, 1, 1, []) for s_ in order]
+        for sid in (1, 101, 2):
+            add("bysubj %d %s" % (sid, lst(st2)), "bysubj:prefix-related-names")
     badval = cert(3, 1, 3, 1, [], b=NOW, a=NOW)      # notBefore = notAfter: refused by the parser
     add("bysubj 4 %s" % lst([store[0], badval, store[4]]), "bysubj:unparsable-validity-before")
     add("bysubj 1 %s" % lst([store[0], badval, store[4]]), "bysubj:unparsable-validity-after")
